@@ -93,7 +93,11 @@ impl RD {
                     Ty::TimestampTz => "timestamp with time zone".into(),
                     Ty::Time => "time".into(),
                     Ty::Date => "date".into(),
-                    Ty::Interval(p) => format!("interval{}", p.map(|p| format!("({p})")).unwrap_or_default()),
+                    Ty::Interval(f, p) => format!(
+                        "interval{}{}",
+                        f.map(|k| format!(" {}", crate::ddl::PG_INTERVAL_FIELDS[k as usize % 13])).unwrap_or_default(),
+                        p.map(|p| format!("({p})")).unwrap_or_default()
+                    ),
                     Ty::Binary(_) | Ty::VarBinary(_) | Ty::Blob => "bytea".into(),
                     Ty::Bit(n) => format!("bit{}", n.map(|n| format!("({n})")).unwrap_or_default()),
                     Ty::VarBit(n) => format!("varbit({n})"),
@@ -152,6 +156,7 @@ impl RD {
                     }
                 }
                 CS::Check(k) => out.push_str(&format!(" CHECK (({}) > ({k}))", self.id(&c.name))),
+                CS::CheckLt(k) => out.push_str(&format!(" CHECK (({}) < ({k}))", self.id(&c.name))),
                 CS::Generated(o, stored) => out.push_str(&format!(" GENERATED ALWAYS AS ((({}) + (1))) {}", self.id(o), if *stored { "STORED" } else { "VIRTUAL" })),
                 CS::Comment(t) => {
                     if self.d == Dialect::Mysql {
@@ -372,6 +377,7 @@ impl RD {
                                 CS::Unique => acts.push(format!("ADD UNIQUE ({})", self.id(&c.name))),
                                 CS::PrimaryKey => acts.push(format!("ADD PRIMARY KEY ({})", self.id(&c.name))),
                                 CS::Check(k) => acts.push(format!("ADD CHECK (({}) > ({k}))", self.id(&c.name))),
+                            CS::CheckLt(k) => acts.push(format!("ADD CHECK (({}) < ({k}))", self.id(&c.name))),
                                 CS::AutoInc | CS::Generated(..) | CS::Comment(_) | CS::Extra(_) => {}
                             }
                         }
@@ -386,6 +392,7 @@ impl RD {
                             CS::Unique => acts.push(format!("ADD UNIQUE ({})", self.id(&c.name))),
                             CS::PrimaryKey => acts.push(format!("ADD PRIMARY KEY ({})", self.id(&c.name))),
                             CS::Check(k) => acts.push(format!("ADD CHECK (({}) > ({k}))", self.id(&c.name))),
+                            CS::CheckLt(k) => acts.push(format!("ADD CHECK (({}) < ({k}))", self.id(&c.name))),
                             CS::AutoInc | CS::Generated(..) | CS::Comment(_) | CS::Extra(_) => {}
                         }
                     }
